@@ -600,7 +600,7 @@ pub fn run_task(plan: &Plan, case: &Case, cfg: &Cfg, st: &mut Stats, fails: &mut
             st.transitions += 1;
             st.fam.get_mut(case.fam).unwrap().1 += 1;
             st.slowest_us = st.slowest_us.max(dt.as_micros());
-            let limit = Duration::from_millis(2000.max(case.text.len() as u64));
+            let limit = Duration::from_millis(5000.max(2 * case.text.len() as u64));
             if plan.oracles & O_TOTAL != 0 && dt > limit {
                 record(&mut task_fails, &mut seen_fail, "slow", case, cfg, w, range, format!("{} ms for {} bytes", dt.as_millis(), case.text.len()), "");
             }
